@@ -48,7 +48,7 @@ class Stateful(InstructionGenerator):
         return replace(self, calls=self.calls + 1), instr
 
 
-SCENS = {"S1": ("S1", False), "S2": ("S2", False), "S3": ("S3", False), "S2+custom": ("S2", True), "S3/lazy": ("S3", False)}
+SCENS = {"S1": ("S1", False), "S2": ("S2", False), "S3": ("S3", False), "S2+custom": ("S2", True), "S3/lazy": ("S3", False), "S2t": ("S2t", False)}
 
 
 def prepare(d: str, scen: str, n: int, odd_end: bool) -> str:
